@@ -583,6 +583,10 @@ func c16TV(a Args, res *Result, t2g string, dir string, progs []*c16Prog, per, c
 			stats["with_include"]++
 			continue
 		}
+		if c16HasByteArray(p.Mod) {
+			stats["with_byte_array"]++
+			continue
+		}
 		var enumVals []string
 		for _, e := range o.Enums {
 			var vs []string
@@ -688,12 +692,30 @@ func c16CompileClass(out string) string {
 
 var c16ByteArrayErr = regexp.MustCompile(`cannot use &?st\.\w+ \((value|variable) of type \*?\[\d+\]u?int8\) as \*?\[\]u?int8 value in argument to (readBuf|buf)\.(Read|Write)Slice(Int8|Uint8)`)
 
-// the codegen gap known since the design round: a fixed array of bytes
+// fixed arrays of bytes (did not compile before the repair): SimpleList on the wire for signed bytes
 func c16GapProgram() *c16Prog {
-	m := &c16Module{Name: "TvGap", Decls: []c16Decl{{S: &c16Struct{Name: "Blob", Mb: []c16Member{
+	m := &c16Module{Name: "TvBytes", Decls: []c16Decl{{S: &c16Struct{Name: "Blob", Mb: []c16Member{
 		{Tag: 0, Req: true, Ty: &c16Ty{K: "byte"}, Key: "raw", ArrLen: 4},
-		{Tag: 1, Req: false, Ty: &c16Ty{K: "byte", Unsigned: true}, Key: "uraw", ArrLen: 2}}}}}}
+		{Tag: 1, Req: false, Ty: &c16Ty{K: "byte", Unsigned: true}, Key: "uraw", ArrLen: 2},
+		{Tag: 2, Req: false, Ty: &c16Ty{K: "byte"}, Key: "o", ArrLen: 3},
+		{Tag: 3, Req: true, Ty: &c16Ty{K: "byte", Unsigned: true}, Key: "r2", ArrLen: 1},
+		{Tag: 4, Req: false, Ty: &c16Ty{K: "string"}, Key: "s", Def: `"x"`}}}}}}
 	return &c16Prog{Idx: -1, Mod: m, Text: c16Join(m.toks(), nil, 0)}
+}
+
+// Codec/GenCodec.v models fixed arrays as LIST only: programs with a fixed array of bytes are validated by the Go
+// monitors (declarations against the IDL, round trip, calls), not by the model
+func c16HasByteArray(m *c16Module) bool {
+	for _, d := range m.Decls {
+		if d.S != nil {
+			for _, mb := range d.S.Mb {
+				if mb.ArrLen > 0 && mb.Ty.K == "byte" {
+					return true
+				}
+			}
+		}
+	}
+	return false
 }
 
 // a fixed program that meets every declaration form and the sites of the generator defects repaired so far
